@@ -810,6 +810,8 @@ void oracle_c13_addrs(World &w, const History &)
       if (w.txs[(size_t)i].q.ok && !w.txs[(size_t)i].q.q.empty()) win = vdns::lower(vdns::name_text(w.txs[(size_t)i].q.q[0].labels));
     for (auto &p : w.packets) {
       if (p.forged || p.t_read < 0 || p.for_tx < t.tx_at_issue || p.for_tx >= t.tx_at_done) continue;
+      if (w.txs[(size_t)p.for_tx].token_hint >= 0 && w.txs[(size_t)p.for_tx].token_hint != t.id) continue; // a transmission of another, concurrent request
+      if (t.seq_done >= 0 && p.seq_read > t.seq_done) continue; // read only after the request had completed
       if (p.rcode != vdns::RC_NOERROR || p.tc || p.qname_lc != win) continue;
       // accepted only if it was the reply to the latest transmission of its query on that socket (C05); the family sends no stale packets
       for (auto &rr : p.rrs) {
@@ -818,6 +820,37 @@ void oracle_c13_addrs(World &w, const History &)
         if (r.family != AF_UNSPEC && fam != r.family) continue;
         want.insert(fmt("%d/%d/%d/ttl%u", fam, p.serial, rr.idx, rr.ttl));
         from_dns = true;
+      }
+    }
+    {
+      // answered (wholly or for one of its two questions) from the query cache: the records are those of the packets
+      // the result names that do not answer a transmission of this request, each TTL reduced by the whole seconds the
+      // answer has spent in the cache (C08's rule) - at every hit, however many came before. The cache is consulted
+      // when the question is asked, i.e. between the issue and the completion of the request: either age is accepted.
+      std::set<int> serials;
+      for (auto &a : t.addrs)
+        if (a.serial) serials.insert(a.serial);
+      std::multiset<std::string> at_issue = want, at_done = want, got_now;
+      bool                       any = false;
+      for (int sn : serials) {
+        const Packet *pp = pkt(w, sn);
+        if (!pp || pp->forged || pp->t_read < 0) continue;
+        if (pp->for_tx >= t.tx_at_issue && pp->for_tx < t.tx_at_done && (w.txs[(size_t)pp->for_tx].token_hint < 0 || w.txs[(size_t)pp->for_tx].token_hint == t.id)) continue; // answered on the network during this request
+        int64_t age_i = t.t_issue / 1000000 - pp->t_read / 1000000, age_d = t.t_done / 1000000 - pp->t_read / 1000000;
+        for (auto &rr : pp->rrs) {
+          int fam = rr.type == vdns::T_A ? AF_INET : rr.type == vdns::T_AAAA ? AF_INET6 : 0;
+          if (!fam || rr.cls != 1) continue;
+          if (r.family != AF_UNSPEC && fam != r.family) continue;
+          at_issue.insert(fmt("%d/%d/%d/ttl%u", fam, pp->serial, rr.idx, (unsigned)(rr.ttl > (uint32_t)age_i ? rr.ttl - (uint32_t)age_i : 0)));
+          at_done.insert(fmt("%d/%d/%d/ttl%u", fam, pp->serial, rr.idx, (unsigned)(rr.ttl > (uint32_t)age_d ? rr.ttl - (uint32_t)age_d : 0)));
+          from_dns = true;
+        }
+        any = true;
+        w.W("c13_cache_hit_ttl_checked");
+      }
+      if (any) {
+        for (auto &a : t.addrs) got_now.insert(a.serial ? fmt("%d/%d/%d/ttl%d", a.fam, a.serial, a.idx, r.kind == 7 ? -1 : a.ttl) : fmt("%d/raw:%s", a.fam, a.raw.c_str()));
+        want = (r.kind != 7 && got_now == at_done) ? at_done : at_issue;
       }
     }
     bool any_marker = false;
